@@ -762,6 +762,30 @@ func c17Classify(c c17Case, obs c17Obs, v string) string {
 	if strings.Contains(v, "registered After(") && f16 {
 		return "F16-C17-before-overwrites-after-request"
 	}
+	// F19: one name is live with a Before("*") record AND an After("*") record (duplicate registration):
+	// the comparator of the sort.SliceStable pre-pass is not a strict weak order on such a table, every
+	// compile reshuffles the records, so an unrelated later call moves existing callbacks
+	if strings.Contains(v, "did not take the replaced") {
+		bs, as := map[string]bool{}, map[string]bool{}
+		for _, o := range c.Ops {
+			if o.Op == "remove" {
+				delete(bs, o.Name)
+				delete(as, o.Name)
+				continue
+			}
+			if o.Before == "*" {
+				bs[o.Name] = true
+			}
+			if o.After == "*" {
+				as[o.Name] = true
+			}
+		}
+		for n := range bs {
+			if as[n] {
+				return "F19-C17-duplicate-star-records-reshuffled"
+			}
+		}
+	}
 	// F18: the violated request is X's After("*") and X is named by another callback's After(X): the
 	// requester's visit recurses into X and places it before unconstrained callbacks that come later
 	for _, o := range c.Ops {
